@@ -2,7 +2,8 @@
 C14 — fn:path / node.path / etree_iter_paths identify each node uniquely.
 
  prove     : EPV.Props.C14 (path_selects_self, path_injective, paths_pairwise_distinct, path_eq_spec,
-             etree_paths_agree/complete/select_self, fn_path_fragment, pinned-tree counter-examples)
+             etree_paths_agree/complete/select_self, fn_path_fragment, string level: parse_render_*,
+             render_injective, path_text_selects_self, path_text_injective; F14f and pinned-tree witnesses)
  correspond: generated XML trees (repeated names, namespaced names through several prefixes, default
              namespace declarations and un-declarations, PIs with arbitrary NCName targets incl.
              repeated targets / targets equal to element names / operator and function names,
@@ -11,14 +12,18 @@ C14 — fn:path / node.path / etree_iter_paths identify each node uniquely.
                impl  = node.path ; fn:path(.) ; nodes selected by evaluating node.path ; by fn:path
                model = the same four computed by the Lean model (pathOf rendered, evalSteps)
                spec  = path prescribed by F&O 3.1 14.6 ; the node itself
-             plus etree_iter_paths(root element) (path string and what it selects from the root
-             element), pairwise distinctness of the strings, XPath30Parser == XPath31Parser, and the
-             paths of parent-less nodes.
+             plus etree_iter_paths(root element) with path '.', '' and '/' (strings and what they select),
+             pairwise distinctness of the strings, path(.) == path() across the 3.0 / 3.1 parsers,
+             path(()) and path of a foreign node empty, a second read of node.path, lazily built trees
+             (LazyElementNode), iter_lazy() == iter(), four namespaces= settings of the reading parser
+             (none, the document's, hostile, renamed prefixes), and the paths of parent-less nodes.
  search    : exhaustive small trees (<= 5 nodes quick / <= 6 thorough, two element names, two PI targets one
              of which equals an element name, text, comment), lxml + ElementTree, document / element / fragment.
  tags      : every disagreement carries the ids of the repaired defects (F14a..F14e) whose trigger predicate
-             holds for the input (computed from the tree, never from the observed output); findings/C14.json
-             lists them all as fixed, so nothing is suppressed.
+             holds for the input (computed from the tree, never from the observed output); F14f (absolute
+             node.path evaluated in a fragment context) is the only listed finding and covers only the
+             field "nodes selected by node.path" of fragment cases, where the real selection is moreover
+             compared with the Lean model of that behaviour (evalAbsInFragment).
 """
 from __future__ import annotations
 
